@@ -23,7 +23,7 @@ PROPS = {
         "rule": "one run = one seeded tape: link kind, schedule variant (eager / would-block at frame boundaries / inside frames / everywhere / one frame per poll / heavy), 1..8 (thorough 1..40) packets with drawn flags, addresses, sizes (incl. 256+ and 4096-frame packets) and byte patterns, sends interleaved with polls, every device read answered from the tape (would-block, short read, Interrupted); plus the enumerated single would-block sweep (12 size pairs x 3 links x every unit position x bursts 1,2,50). Non-trivial = at least one of: poll ended on a partial packet, would-block inside a frame, multi-frame packet, >=2 packets, packets still queued at a return, sweep case. Distinct = distinct event-log hashes among the non-trivial runs.",
         "state_measure": "abstract state = (receiver phase: idle | partial with bucketed units taken) x bucketed units in flight x last poll delivered; transitions between consecutive polls",
         "probes": ["poll_ended_on_partial_packet", "wouldblock_inside_frame", "multi_frame_packet", "multi_packet_sequence",
-                   "packets_queued_at_return", "frame_id_over_255", "sweep_case", "serial_short_read"],
+                   "packets_queued_at_return", "frame_id_over_255", "sweep_case", "serial_short_read", "long_no_data_burst"],
         "components": REAL_LINK,
         "assumptions": COMMON_ASSUMPTIONS + [
             "schedule space as the property states it: 'no data yet' between frames on CAN and serial port, between any two bytes on USART; data eventually arrives (consecutive would-blocks while data is in flight are bounded per run by 1, 3, 8 or 64)",
@@ -57,10 +57,11 @@ PROPS["C19"] = {
     "level": "exploration",
     "runs": {"quick": 80000, "thorough": 600000},
     "crash_clause": None,
-    "rule": "one run = one seeded tape: link kind, polling schedule variant, a long traffic history of 20..420 (thorough up to 20000) episodes as in C06 (clean packets incl. 256+/4096-frame ones, damaged packets, abandoned start frames announcing up to 4096 frames), 15% of runs clean-only; SUT-domain heap bytes measured after every poll with the returned value dropped first, and the largest single SUT allocation during each poll. Every run is non-trivial (it holds a partial packet between polls or crosses a boundary after a multi-frame packet); distinct = distinct event-log hashes.",
+    "rule": "one run = one seeded tape: link kind, polling schedule variant, a long traffic history of 20..420 (thorough up to 20000) episodes as in C06 (clean packets incl. 256+/4096-frame ones, damaged packets, abandoned start frames announcing up to 4096 frames; in 4% of the runs over-long 'packets' of up to 8192 frames whose 13th id bit sits in the reserved header bit; in a quarter of the runs a USART/serial device that fails reads hard at aligned positions), 15% of runs clean-only; SUT-domain heap bytes measured after every poll with the returned value dropped first, and the largest single SUT allocation during each poll. Every run is non-trivial (it holds a partial packet between polls or crosses a boundary after a multi-frame packet); distinct = distinct event-log hashes.",
     "state_measure": "abstract state (sampled every 64 polls) = bucketed bytes held above fresh x bucketed announcement in flight x bucketed units in flight",
     "probes": ["partial_packet_held_between_polls", "boundary_after_multi_frame", "abandoned_giant_announcement", "history_over_1000_frames",
-               "held_over_4k_for_large_packet", "fault_zero_length_frame", "fault_interrupted_packet", "boundaries"],
+               "held_over_4k_for_large_packet", "fault_zero_length_frame", "fault_interrupted_packet", "boundaries",
+               "history_with_device_read_errors", "overlong_packet_with_reserved_bit"],
     "components": REAL_LINK + ["harness: counting global allocator with per-allocation domain tags (SUT while inside a ross-protocol call, SIM in devices/harness); realloc modelled as allocate-copy-free"],
     "assumptions": COMMON_ASSUMPTIONS + [
         "bounds: between polls live <= fresh + 256 B + 96 B x A, A = largest frame count announced by any start frame taken since the last boundary (model-free upper bound on the packet in flight); after Ok(_) or Err(BuilderError(_)) live <= fresh; no single allocation during a poll above max(1 KiB, 96 B x A, 4 x returned payload)",
@@ -76,7 +77,7 @@ PROPS["C14"] = {
     "rule": "enumeration: for each packet of a fixed list (quick: 0,3,8,9,14,15,22 bytes; thorough: 40 sizes 0..70) and each link, after a dry run that counts the device calls, every single fault position: USART a would-block burst (1,2,50) before every byte; CAN a would-block burst before and a displaced-frame report at every transmit; serial port a hard error (3 kinds), every short-write size 1..14 and an Interrupted at every write call, an error (3 kinds) at every flush call. Exploration: seeded runs with random packets (up to 28672 bytes) and random combinations/rates of the same reactions. Non-trivial = a reaction actually fired or the packet is multi-frame. Distinct = distinct event-log hashes among those. The enumeration is exhaustive over its stated list only.",
     "state_measure": "not measured for this scenario (single call per run)",
     "probes": ["fired_would_block", "fired_short_write", "fired_interrupted", "fired_hard_write_error", "fired_flush_error",
-               "fired_displaced_frame", "multi_frame_packet", "frame_id_over_255", "sent_ok", "sent_err_reported"],
+               "fired_displaced_frame", "multi_frame_packet", "frame_id_over_255", "sent_ok", "sent_err_reported", "long_would_block_burst"],
     "components": [
         "real: /repo/src/interface/{can,usart,serial}.rs try_send_packet; Packet::to_frames; Frame::to_usart_frame / to_bxcan_frame; cobs",
         "real (as definition of the expected stream): the library's own fragmenter and frame encoders (their layout is C08-C10's subject)",
